@@ -55,18 +55,32 @@ void ares_close_connection(ares_conn_t *conn, ares_status_t requeue_status)
     server->tcp_conn = NULL;
   }
 
-  ares_buf_destroy(conn->in_buf);
-  ares_buf_destroy(conn->out_buf);
-
   /* Requeue queries to other connections */
   ares_requeue_queries(conn, requeue_status);
 
   ares_llist_destroy(conn->queries_to_conn);
+  conn->queries_to_conn = NULL;
 
   ares_conn_sock_state_cb_update(conn, ARES_CONN_STATE_NONE);
 
   ares_socket_close(channel, conn->fd);
 
+  /* We may have been called (e.g. via a user callback calling ares_cancel(),
+   * or a query that failed to be written to this connection) while
+   * read_answers() is still iterating the input buffer of this connection.
+   * The connection is unlinked and closed, but read_answers() releases it. */
+  if (conn->state_flags & ARES_CONN_STATE_READING) {
+    conn->state_flags |= ARES_CONN_STATE_CLOSED;
+    return;
+  }
+
+  ares_conn_free(conn);
+}
+
+void ares_conn_free(ares_conn_t *conn)
+{
+  ares_buf_destroy(conn->in_buf);
+  ares_buf_destroy(conn->out_buf);
   ares_free(conn);
 }
 
